@@ -637,3 +637,38 @@ def probe_multiplier_sequence():
         return w
 
     attach([(R, "get_multiplier_sequence")], factory)
+
+
+def probe_balance_pipeline():
+    """C11: pass begin/end around MultiplexDataPipe.reduce and every span fetched by chunkgetter
+    (pid, lo, hi, rows) for the exactly-once checker. Worker-side events go to the event log."""
+    import cooler.parallel as PAR
+
+    orig_reduce = PAR.MultiplexDataPipe.reduce
+    if not getattr(orig_reduce, "_verif_probe", False):
+        @functools.wraps(orig_reduce)
+        def red(self, binop, init):
+            _count("pipe_reduce")
+            emit({"ev": "pass_begin", "keys": [[int(a), int(b)] for a, b in self.keys]})
+            try:
+                return orig_reduce(self, binop, init)
+            finally:
+                emit({"ev": "pass_end"})
+        red._verif_probe = True
+        STATE["attached"].append((PAR.MultiplexDataPipe, "reduce", orig_reduce))
+        PAR.MultiplexDataPipe.reduce = red
+
+    orig_call = PAR.chunkgetter.__call__
+    if not getattr(orig_call, "_verif_probe", False):
+        @functools.wraps(orig_call)
+        def call(self, span):
+            chunk = orig_call(self, span)
+            try:
+                rows = len(chunk["pixels"]["bin1_id"])
+                emit({"ev": "fetch", "lo": int(span[0]), "hi": int(span[1]), "rows": int(rows)})
+            except Exception:
+                pass
+            return chunk
+        call._verif_probe = True
+        STATE["attached"].append((PAR.chunkgetter, "__call__", orig_call))
+        PAR.chunkgetter.__call__ = call
